@@ -456,6 +456,8 @@ struct VSys {
                 "=18446744073709551615u", "=\"18446744073709551615\"", "=\"12x\"",
                 "=ValueType::Null", "=ValueType::Array", "=ValueType::Object", "=ValueType::String",
                 "=own first child (const Value&)", "=move(own first child)", "+=own first element (const Value&)", "first element=whole (const Value&)",
+                "=move(own first child's container/string)", "+=move(own first element's array/string)", "Insert(\"c\",move(own first child))",
+                "Merge(move(own first child))", "+=move(own first child)", "[move(own first element's string)]",
                 "+=7u", "+=\"s\"", "+=null", "+=true", "+=2.5", "+=[] (ArrayT&&)", "+=[9,8] (ArrayT&&)", "+=[9] (const ArrayT&)", "+={c:3} (ObjectT&&)",
                 "+={a:4} (const ObjectT&)", "+=R1", "+=move(R1)", "+=String&&", "+=StringView",
                 "Merge(R1)", "Merge(move(R1))",
@@ -869,6 +871,102 @@ struct VSys {
                     MV cm = *mc;
                     X     = std::move(*c);
                     M     = cm;
+                }
+            } else if (act == "=move(own first child's container/string)" || act == "+=move(own first element's array/string)" ||
+                       act == "Insert(\"c\",move(own first child))" || act == "Merge(move(own first child))" || act == "+=move(own first child)" ||
+                       act == "[move(own first element's string)]") {
+                // rvalue overloads whose argument is (the payload of) the value's own first child
+                MV *mc = nullptr;
+                if (M.k == MV::A && !M.items.empty()) {
+                    mc = &M.items[0];
+                } else if (M.k == MV::O && !M.had_removal && !M.members.empty()) {
+                    mc = &M.members[0].second;
+                }
+                if (mc == nullptr || mc->k == MV::U || mc->k == MV::P) {
+                    return false;
+                }
+                V *c = X.GetValue(SizeT(0));
+                if (c == nullptr) {
+                    err = "GetValue(0) of a non-empty container returned null";
+                    return true;
+                }
+                const MV child = *mc; // as it is: a moved container keeps its removed slots
+                if (act == "=move(own first child's container/string)") {
+                    if (child.k == MV::O) {
+                        X = std::move(*const_cast<V::ObjectT *>(c->GetObject()));
+                    } else if (child.k == MV::A) {
+                        X = std::move(*const_cast<V::ArrayT *>(c->GetArray()));
+                    } else if (child.k == MV::S) {
+                        X = std::move(*const_cast<VS *>(c->GetString()));
+                    } else {
+                        return false;
+                    }
+                    M = child;
+                } else if (act == "+=move(own first element's array/string)") {
+                    if (M.k != MV::A) {
+                        return false;
+                    }
+                    if (child.k == MV::A) {
+                        X += std::move(*const_cast<V::ArrayT *>(c->GetArray())); // the items move to the end, the element stays as []
+                        MV empty;
+                        empty.k    = MV::A;
+                        M.items[0] = empty;
+                        if (child.items.empty()) {
+                            M.items.push_back(empty); // an empty array is appended as one (nested) element
+                        }
+                        for (auto &e : child.items) {
+                            M.items.push_back(e);
+                        }
+                    } else if (child.k == MV::S) {
+                        X += std::move(*const_cast<VS *>(c->GetString())); // the text moves into a new last element, the element stays as ""
+                        M.items[0] = mS("");
+                        M.items.push_back(mS(child.s));
+                    } else {
+                        return false;
+                    }
+                } else if (act == "Insert(\"c\",move(own first child))") {
+                    if (M.k != MV::O || M.find("c") == 0) {
+                        return false; // (the first member being "c" itself would be an insert of a value into its own place)
+                    }
+                    X.Insert(StringView<char>("c", SizeT(1)), std::move(*c));
+                    M.members[0].second = mU();
+                    m_key(M, "c")        = child;
+                } else if (act == "Merge(move(own first child))") {
+                    if (M.k == MV::A && child.k == MV::A) {
+                        X.Merge(std::move(*c)); // the items move to the end, the element is left Undefined
+                        M.items[0] = mU();
+                        for (auto &e : child.items) {
+                            if (e.k != MV::U) {
+                                M.items.push_back(e);
+                            }
+                        }
+                    } else if (M.k == MV::O && child.k == MV::O) {
+                        X.Merge(std::move(*c));
+                        M.members[0].second = mU();
+                        m_merge_obj(M, child);
+                    } else {
+                        return false;
+                    }
+                } else if (act == "+=move(own first child)") {
+                    if (M.k == MV::O && child.k == MV::O) {
+                        X += std::move(*c);
+                        M.members[0].second = mU();
+                        m_merge_obj(M, child);
+                    } else if (M.k == MV::A) {
+                        X += std::move(*c); // appended as a new last element, a hole stays behind
+                        M.items[0] = mU();
+                        M.items.push_back(child);
+                    } else {
+                        return false;
+                    }
+                } else {
+                    if (M.k != MV::A || child.k != MV::S) {
+                        return false;
+                    }
+                    X[std::move(*const_cast<VS *>(c->GetString()))]; // an array indexed by a key becomes an object with that key
+                    M   = MV();
+                    M.k = MV::O;
+                    M.members.push_back({child.s, mU()});
                 }
             } else if (act == "+=own first element (const Value&)") {
                 if (M.k != MV::A || M.items.empty() || M.items[0].k == MV::U || M.items[0].k == MV::P) {
